@@ -16,14 +16,17 @@ import (
 // ------------------------------------------------------------------ C10
 
 type pbSpec struct {
-	Kind      string `json:"kind"`      // "" sequence | "initial-delay"
-	Delay     int    `json:"delay"`     // initial_delay_seconds (initial-delay kind)
-	Op        string `json:"op"`        // initial-delay kind: "stop" | "restart" during the delay
-	Seq       []int  `json:"seq"`       // probe outcomes, 1 ok / 0 fail
-	Threshold int    `json:"threshold"` // failure_threshold
-	Restart   string `json:"restart"`
-	Daemon    bool   `json:"daemon"`    // daemon + liveness probe instead of readiness
-	Dependent bool   `json:"dependent"` // a process depending on it with process_healthy
+	Kind       string `json:"kind"`      // "" sequence | "initial-delay"
+	Delay      int    `json:"delay"`     // initial_delay_seconds (initial-delay kind)
+	Op         string `json:"op"`        // initial-delay kind: "stop" | "restart" during the delay
+	Seq        []int  `json:"seq"`       // probe outcomes, 1 ok / 0 fail
+	Threshold  int    `json:"threshold"` // failure_threshold
+	Restart    string `json:"restart"`
+	Daemon     bool   `json:"daemon"`                // daemon + liveness probe instead of readiness
+	Dependent  bool   `json:"dependent"`             // a process depending on it with process_healthy
+	LauncherMs int    `json:"launcher_ms,omitempty"` // daemon: the launcher command takes this long to return
+	Exec       string `json:"exec,omitempty"`        // exec readiness probe variant: ok | exit3 | hang | killed | nocmd
+	Storm      bool   `json:"storm,omitempty"`       // every probe fails, threshold 1, back-off ~1 ms: hundreds of probe-triggered restarts
 }
 
 func genPbSpec(rng *rand.Rand, i int) pbSpec {
@@ -64,20 +67,109 @@ func genPbSpec(rng *rand.Rand, i int) pbSpec {
 		sp.Seq = append(sp.Seq, 1)
 	}
 	sp.Dependent = !sp.Daemon && rng.Intn(2) == 0
+	if i%12 == 3 {
+		// daemon with a slow launcher: the liveness probe fails from the start
+		// and reaches its threshold before the launcher command has returned
+		sp = pbSpec{Threshold: 1 + rng.Intn(2), Restart: []string{"no", "always", ""}[rng.Intn(3)], Daemon: true, LauncherMs: 1500}
+		for k := 0; k < sp.Threshold+2; k++ {
+			sp.Seq = append(sp.Seq, 0)
+		}
+	}
+	if i%12 == 7 {
+		// restart storm: the prober is stopped and started again hundreds of
+		// times, each time from inside its own failure callback
+		sp = pbSpec{Threshold: 1, Restart: "always", Storm: true}
+	}
 	return sp
+}
+
+// runExecProbeCase: the readiness probe is a real shell command that succeeds,
+// fails with an exit code, hangs beyond its timeout, is killed by a signal or
+// cannot be run at all.
+func runExecProbeCase(c fw.Case, sp pbSpec) fw.Result {
+	cmds := map[string]string{"ok": "true", "exit3": "exit 3", "hang": "sleep 20", "killed": "kill -9 $$", "nocmd": "/nonexistent/pcverif-probe"}
+	failing := sp.Exec != "ok"
+	spec := LifeSpec{BackoffUnitMs: 20, SilenceMs: 15000, MaxMs: 50000, EndWithShutdown: true}
+	spec.Procs = []PSpec{{Name: "hp", RunMs: []int{-1}, Restart: "no", ProbeExec: cmds[sp.Exec], ProbeFail: sp.Threshold}}
+	if failing {
+		// progress-paced: wait (bounded) for the stop signal the failures must cause
+		spec.Ops = []Op{{When: "signal:hp", Op: "sleep", N: 50}}
+	} else {
+		spec.Ops = []Op{{When: "health:hp:" + types.ProcessHealthReady, Op: "sleep", N: 1200}}
+	}
+	lr := RunLife(c.Seed, &spec, nil)
+	r := fw.Result{NonTrivial: true}
+	if lr.LoadErr != nil {
+		r.Inconclusive = "load: " + lr.LoadErr.Error()
+		return r
+	}
+	if lr.Outcome != sim.RunReturned {
+		r.Dirty = true
+		r.Inconclusive = "run did not return"
+	}
+	ix := indexLife(lr.Events)
+	sd := 1 << 30
+	if len(ix.shutdownEnter) > 0 {
+		sd = ix.shutdownEnter[0]
+	}
+	ready, notReady, signalled := false, 0, false
+	for _, e := range lr.Events {
+		if e.Proc != "hp" || e.Seq > sd {
+			continue
+		}
+		switch e.Kind {
+		case sim.EvHealth:
+			if e.Str == types.ProcessHealthReady {
+				ready = true
+			}
+			if e.Str == types.ProcessHealthNotReady {
+				notReady++
+			}
+		case sim.EvSignal:
+			signalled = true
+		}
+	}
+	r.Count("exec_probe_cases", 1)
+	if failing {
+		if ready {
+			r.Add("C10", "ready-without-success", "hp was reported Ready although its exec readiness probe (%s: %q) never succeeded", sp.Exec, cmds[sp.Exec])
+		}
+		if !signalled {
+			r.Add("C10", "no-stop-after-threshold", "hp was not stopped although its exec readiness probe (%s: %q, failure_threshold %d) can only fail (waited for the stop for 12 s)", sp.Exec, cmds[sp.Exec], sp.Threshold)
+		}
+	} else {
+		if !ready {
+			r.Add("C10", "not-ready-despite-success", "hp was never reported Ready although its exec readiness probe (%q) succeeds (waited 10 s)", cmds[sp.Exec])
+		}
+		if signalled {
+			r.Add("C10", "stopped-before-threshold", "hp was stopped although its exec readiness probe (%q) succeeds", cmds[sp.Exec])
+		}
+	}
+	if len(r.Findings) > 0 {
+		r.Witness = witness(lr, 200)
+	}
+	r.Sig = sim.Hash(fmt.Sprint(sp.Exec, sp.Threshold))
+	return r
 }
 
 func runProbeCase(c fw.Case) fw.Result {
 	var sp pbSpec
 	c.Params(&sp)
+	if sp.Exec != "" {
+		return runExecProbeCase(c, sp)
+	}
 	if sp.Kind == "initial-delay" {
 		return runProbeDelayCase(c, sp)
 	}
 	spec := LifeSpec{BackoffUnitMs: 20, SilenceMs: 8000, MaxMs: 40000}
+	if sp.Storm {
+		spec.BackoffUnitMs = 1
+		spec.NoOutEvents = true
+	}
 	p := PSpec{Name: "hp", RunMs: []int{-1}, Restart: sp.Restart, ProbeSeq: sp.Seq}
 	if sp.Daemon {
 		p.Daemon = true
-		p.RunMs = []int{0}
+		p.RunMs = []int{sp.LauncherMs}
 		p.Liveness = true
 		p.LiveFail = sp.Threshold
 	} else {
@@ -90,6 +182,9 @@ func runProbeCase(c fw.Case) fw.Result {
 	}
 	// probes are served on the full second: the shutdown lands in between
 	spec.Ops = []Op{{When: fmt.Sprintf("t:%d", (len(sp.Seq)+2)*1000+500), Op: "shutdown"}}
+	if sp.Storm {
+		spec.Ops = []Op{{When: "t:5000", Op: "shutdown"}}
+	}
 	lr := RunLife(c.Seed, &spec, nil)
 	r := fw.Result{NonTrivial: true}
 	if lr.LoadErr != nil {
@@ -398,9 +493,20 @@ func init() {
 		Gen: func(seed int64, tier string) []fw.Case {
 			var cs []fw.Case
 			cs = append(cs, fw.MkCase("C10", "parameter-grid", 0, nil))
+			for i, v := range []string{"ok", "exit3", "hang", "killed", "nocmd", "hang", "killed", "exit3"} {
+				if i >= tierN(tier, 8, 8) {
+					break
+				}
+				cs = append(cs, fw.MkCase("C10", "exec-probe", fw.SubSeed(seed, 900000+i), pbSpec{Exec: v, Threshold: 1 + i%2}))
+			}
 			for i := 0; i < tierN(tier, 143, 2400); i++ {
 				s := fw.SubSeed(seed, i)
-				cs = append(cs, fw.MkCase("C10", "probe-sequence", s, genPbSpec(fw.Rand(s), i)))
+				sp := genPbSpec(fw.Rand(s), i)
+				kind := "probe-sequence"
+				if sp.Storm {
+					kind = "probe-restart-storm"
+				}
+				cs = append(cs, fw.MkCase("C10", kind, s, sp))
 			}
 			return cs
 		},
